@@ -132,9 +132,12 @@ def run(ctx, chk):
                            "passed to the reallocation and stored), guarded by _cbor_safe_to_multiply; never additive")
     chk.rule("C12.value-slot", "_cbor_map_add_value (which writes pair count-1) is called only right after a successful "
                                "_cbor_map_add_key on the same map")
+    chk.rule("C12.atomic", "a refused insertion (false) has performed no store through the container and no incref (shared with C06)")
+    from props.c06 import check_atomic
+    check_atomic(chk, "C12.atomic", prog, cache)
     chk.not_decided += ["equivalence with an abstract list over all histories, and the amortised reallocation count (runtime "
                         "quantities); the invariant count <= capacity is maintained by these rules by induction (argument)",
-                        "atomic refusal is decided under C06.atomic"]
+                        ]
     # ---- index guard
     off_meta = prog.field_offset("cbor_item_t", "metadata")
     end_off = off_meta + prog.field_offset("_cbor_array_metadata", "end_ptr")
